@@ -455,7 +455,7 @@ func vh_C01_StringerPointer() {
 	for i, pfx := range []string{"G-", "GI-", "J-"} {
 		vfAssert(pfx+"isnil", nils[i] == !present)
 		if present {
-			vfAssert(pfx+"tostring-present", texts[i] == "tag")
+			vfAssert("lemma/"+pfx+"tostring-present-uses-the-string-method", texts[i] == "tag") // how a PRESENT value renders is not part of C01
 		} else {
 			vfAssert(pfx+"tostring-nil", texts[i] == "<nil>")
 		}
